@@ -43,6 +43,8 @@ struct World {
     owner: Addr,
     collector: Addr,
     minter: Addr,
+    /// constant-product pair (the C01 monitors apply); false = two-asset stableswap
+    cp: bool,
     // harness-side ghost sums (events / balance deltas)
     chg: [u128; 2],
     sent: [u128; 2],
@@ -179,7 +181,7 @@ impl World {
     }
 }
 
-fn build(kinds: [bool; 2], fees: (u128, u128, u128), n: usize, a: u128, bb: u128) -> Result<Option<World>, String> {
+fn build(kinds: [bool; 2], fees: (u128, u128, u128), n: usize, a: u128, bb: u128, ss: Option<(u64, u8, u8)>) -> Result<Option<World>, String> {
     let owner = Addr::unchecked("owner");
     let minter = Addr::unchecked("minter");
     let collector = Addr::unchecked("collector");
@@ -242,10 +244,16 @@ fn build(kinds: [bool; 2], fees: (u128, u128, u128), n: usize, a: u128, bb: u128
                 &p::InstantiateMsg {
                     asset_infos: [info(0), info(1)],
                     token_code_id: token_id,
-                    asset_decimals: [6, 6],
+                    asset_decimals: match ss {
+                        Some((_, d0, d1)) => [d0, d1],
+                        None => [6, 6],
+                    },
                     pool_fees: pool_fee(fees.0, fees.1, fees.2),
                     fee_collector_addr: collector.to_string(),
-                    pair_type: PairType::ConstantProduct,
+                    pair_type: match ss {
+                        Some((amp, _, _)) => PairType::StableSwap { amp },
+                        None => PairType::ConstantProduct,
+                    },
                     token_factory_lp: false,
                 },
                 &[],
@@ -272,7 +280,7 @@ fn build(kinds: [bool; 2], fees: (u128, u128, u128), n: usize, a: u128, bb: u128
             }
         }
     }
-    Ok(Some(World { app, pair, lp, kinds, tokens, users, owner, collector, minter, chg: [0; 2], sent: [0; 2], brn: [0; 2] }))
+    Ok(Some(World { app, pair, lp, kinds, tokens, users, owner, collector, minter, cp: ss.is_none(), chg: [0; 2], sent: [0; 2], brn: [0; 2] }))
 }
 
 /// the amounts of the pair's `swap` response attributes: (return, spread, swap fee, protocol fee, burn fee)
@@ -289,6 +297,16 @@ fn swap_attrs(res: &AppResponse, pair: &Addr) -> Vec<[u128; 5]> {
     out
 }
 
+/// the C01 monitors state the CONSTANT-PRODUCT property; on a stableswap pair (variant `ss`, run for
+/// C07) they are recorded under a tag no check reads
+fn c01_tag(w: &World) -> &'static str {
+    if w.cp {
+        "C01"
+    } else {
+        "C01-not-applicable-to-stableswap"
+    }
+}
+
 fn parse_opt(s: &str) -> Option<Option<u128>> {
     if s == "none" {
         Some(None)
@@ -299,6 +317,7 @@ fn parse_opt(s: &str) -> Option<Option<u128>> {
 
 #[derive(Default)]
 pub struct PairEngine {
+    variant: String,
     w: Option<World>,
     len: u64,
     nusers: usize,
@@ -315,6 +334,9 @@ fn value_not_lower(pre: &[u128; 3], post: &[u128; 3]) -> Option<bool> {
 }
 
 impl PairEngine {
+    pub fn new(variant: &str) -> Self {
+        PairEngine { variant: variant.into(), ..Default::default() }
+    }
     fn do_init(&mut self, ws: &[&str]) -> String {
         let mut kv = std::collections::BTreeMap::new();
         for t in &ws[2..] {
@@ -338,10 +360,18 @@ impl PairEngine {
         if n == 0 || n > 8 {
             return "bad-op".into();
         }
+        let ss = match kv.get("curve").map(|x| x.as_str()) {
+            None | Some("cp") => None,
+            Some("ss") => match (num("amp"), num("d0"), num("d1")) {
+                (Some(amp), Some(d0), Some(d1)) if amp <= u64::MAX as u128 && d0 <= 255 && d1 <= 255 => Some((amp as u64, d0 as u8, d1 as u8)),
+                _ => return "bad-op".into(),
+            },
+            _ => return "bad-op".into(),
+        };
         self.last_provide = None;
         self.nusers = n as usize;
         self.ubal = [a, bb];
-        match build([k0, k1], (pf, sf, bf), n as usize, a, bb) {
+        match build([k0, k1], (pf, sf, bf), n as usize, a, bb, ss) {
             Ok(Some(w)) => {
                 let o = w.observe();
                 let s = w.show(&o);
@@ -362,21 +392,22 @@ impl PairEngine {
     /// monitors that hold for EVERY operation (successful or not)
     fn monitor_common(w: &World, mon: &mut Monitor, op: &str, ok: bool, pre: &Obs, post: &Obs) {
         let d = |s: String| move || s;
+        let c01 = c01_tag(w);
         // ---- C01 solvency: the Pool query answers, and balance = reported reserve + pending fees
         let solvent = match &post.pool {
             Some(r) => (0..2).all(|k| post.bal[k] >= post.pend[k] && r[k] == post.bal[k] - post.pend[k]) && r[2] == post.sup,
             None => false,
         };
-        mon.check("C01", "solvent", solvent, d(format!("after {op}: balances {:?} pending {:?} reported {:?}", post.bal, post.pend, post.pool)));
+        mon.check(c01, "solvent", solvent, d(format!("after {op}: balances {:?} pending {:?} reported {:?}", post.bal, post.pend, post.pool)));
         // ---- C01 minimum liquidity locked: the pair's own LP never leaves, and is >= 1000 once there is supply
         mon.check(
-            "C01",
+            c01,
             "min_liquidity_locked",
             post.lpp >= pre.lpp && (post.sup == 0 || post.lpp >= MIN_LIQ) && post.lpp <= post.sup,
             d(format!("after {op}: pair's LP {} -> {}, supply {}", pre.lpp, post.lpp, post.sup)),
         );
         if !ok {
-            mon.check("C01", "failed_op_unchanged", pre == post, d(format!("failed {op} changed the state: {pre:?} -> {post:?}")));
+            mon.check(c01, "failed_op_unchanged", pre == post, d(format!("failed {op} changed the state: {pre:?} -> {post:?}")));
             return;
         }
         // ---- C01 LP value never falls (needs supply before and after)
@@ -385,7 +416,7 @@ impl PairEngine {
                 match value_not_lower(a, b) {
                     Some(v) => {
                         mon.check(
-                            "C01",
+                            c01,
                             "lp_value_monotone",
                             v,
                             d(format!("{op}: reserves/supply {a:?} -> {b:?}: sqrt(r0 r1)/S fell")),
@@ -422,6 +453,7 @@ impl PairEngine {
     fn exec_op(&mut self, ws: &[&str], mon: &mut Monitor) -> String {
         let n = self.nusers;
         let w = self.w.as_mut().unwrap();
+        let c01 = c01_tag(w);
         let pre = w.observe();
         let user = |s: &str| s.parse::<usize>().ok().filter(|u| *u < n);
         let pair = w.pair.clone();
@@ -467,7 +499,7 @@ impl PairEngine {
                     // ---- C01 first deposit locks exactly the minimum liquidity in the pair
                     if pre.sup == 0 {
                         mon.check(
-                            "C01",
+                            c01,
                             "first_deposit_locks_minimum",
                             post.lpp == pre.lpp + MIN_LIQ && post.sup == MIN_LIQ + share,
                             d(format!("{op}: pair's LP {} -> {}, supply {}, share {share}", pre.lpp, post.lpp, post.sup)),
@@ -476,13 +508,13 @@ impl PairEngine {
                         // ---- C01 mint <= pro rata on both assets: share·r_i <= d_i·S
                         if let Some(rr) = &pre.pool {
                             let okm = (0..2).all(|k| u512(share) * u512(rr[k]) <= u512(ds[k]) * u512(pre.sup));
-                            mon.check("C01", "mint_le_pro_rata", okm, d(format!("{op}: minted {share} on reserves {rr:?}")));
+                            mon.check(c01, "mint_le_pro_rata", okm, d(format!("{op}: minted {share} on reserves {rr:?}")));
                         }
-                        mon.check("C01", "supply_grows_by_share", post.sup == pre.sup + share && post.lpp == pre.lpp, d(format!("{op}: supply {} -> {} share {share}", pre.sup, post.sup)));
+                        mon.check(c01, "supply_grows_by_share", post.sup == pre.sup + share && post.lpp == pre.lpp, d(format!("{op}: supply {} -> {} share {share}", pre.sup, post.sup)));
                     }
                     // exactly the deposits moved
                     let moved = (0..2).all(|k| post.bal[k] == pre.bal[k] + ds[k]) && (0..2).all(|k| post.users[u][k] + ds[k] == pre.users[u][k]);
-                    mon.check("C01", "provide_moves_exactly_deposits", moved, d(format!("{op}: pair {:?} -> {:?}", pre.bal, post.bal)));
+                    mon.check(c01, "provide_moves_exactly_deposits", moved, d(format!("{op}: pair {:?} -> {:?}", pre.bal, post.bal)));
                     if u == r {
                         lastp = Some((u, d0, d1, share, pre.sup, [pre.bal[0], pre.bal[1]]));
                     }
@@ -533,17 +565,17 @@ impl PairEngine {
                     if let Some(rr) = &pre.pool {
                         // ---- C01 a withdrawal never pays more than pro rata: x_i·S <= r_i·amt
                         let okw = (0..2).all(|k| u512(got[k]) * u512(pre.sup) <= u512(rr[k]) * u512(amt));
-                        mon.check("C01", "withdraw_le_pro_rata", okw, d(format!("{op}: got {got:?} of reserves {rr:?} supply {}", pre.sup)));
+                        mon.check(c01, "withdraw_le_pro_rata", okw, d(format!("{op}: got {got:?} of reserves {rr:?} supply {}", pre.sup)));
                     }
                     let moved = (0..2).all(|k| post.bal[k] + got[k] == pre.bal[k]) && post.sup + amt == pre.sup && post.users[u][2] + amt == pre.users[u][2] && post.lpp == pre.lpp;
-                    mon.check("C01", "withdraw_burns_exactly", moved, d(format!("{op}: supply {} -> {}, pair {:?} -> {:?}, got {got:?}", pre.sup, post.sup, pre.bal, post.bal)));
+                    mon.check(c01, "withdraw_burns_exactly", moved, d(format!("{op}: supply {} -> {}, pair {:?} -> {:?}, got {got:?}", pre.sup, post.sup, pre.bal, post.bal)));
                     // ---- C01 deposit then immediate withdrawal of the minted shares never returns more than deposited
                     if let Some((pu, d0, d1, share, sup_before, bal_before)) = prev_provide {
                         if pu == u && amt <= share {
                             let donated_empty = sup_before == 0 && (bal_before[0] > 0 || bal_before[1] > 0);
                             let tag = if donated_empty { "empty_pool_held_donation" } else { "" };
                             if !donated_empty {
-                                mon.check_tag("C01", "deposit_then_withdraw_le", tag, got[0] <= d0 && got[1] <= d1, d(format!("deposit ({d0},{d1}) minted {share}; {op} returned {got:?}")));
+                                mon.check_tag(c01, "deposit_then_withdraw_le", tag, got[0] <= d0 && got[1] <= d1, d(format!("deposit ({d0},{d1}) minted {share}; {op} returned {got:?}")));
                                 mon.stat("deposit_then_withdraw_checked");
                             } else {
                                 mon.stat("deposit_then_withdraw_skipped_donated_empty_pool");
@@ -734,6 +766,7 @@ impl PairEngine {
     #[allow(clippy::too_many_arguments)]
     fn after_swap(w: &mut World, mon: &mut Monitor, op: &str, o: &Outcome<AppResponse>, pre: &Obs, u: usize, to: usize, dir: usize, off: u128) {
         let d = |s: String| move || s;
+        let c01 = c01_tag(w);
         if let Outcome::Ok(res) = o {
             let post = w.observe();
             let attrs = swap_attrs(res, &w.pair);
@@ -765,10 +798,10 @@ impl PairEngine {
                 && post.pend[ask] == pre.pend[ask] + a[3]
                 && post.pend[dir] == pre.pend[dir]
                 && post.sup == pre.sup;
-            mon.check("C01", "swap_moves_exactly", okm, d(format!("{op}: attrs {a:?} got {got} paid {paid}; pair {:?} -> {:?}, pending {:?} -> {:?}", pre.bal, post.bal, pre.pend, post.pend)));
+            mon.check(c01, "swap_moves_exactly", okm, d(format!("{op}: attrs {a:?} got {got} paid {paid}; pair {:?} -> {:?}, pending {:?} -> {:?}", pre.bal, post.bal, pre.pend, post.pend)));
             // ---- C01: constant product of the reported reserves never falls across a swap
             if let (Some(x), Some(y)) = (&pre.pool, &post.pool) {
-                mon.check("C01", "swap_k_non_decreasing", u512(x[0]) * u512(x[1]) <= u512(y[0]) * u512(y[1]), d(format!("{op}: reserves {x:?} -> {y:?}")));
+                mon.check(c01, "swap_k_non_decreasing", u512(x[0]) * u512(x[1]) <= u512(y[0]) * u512(y[1]), d(format!("{op}: reserves {x:?} -> {y:?}")));
             }
             // ---- C07: burned amounts leave circulation, the collector gets nothing at swap time
             mon.check(
@@ -805,6 +838,19 @@ impl PairEngine {
             _ => (1u128 << rng.range(12, 118)) + rng.u128() % (1u128 << 12),
         };
         self.nusers = 4;
+        if self.variant == "ss" {
+            // two-asset stableswap: balances within 2^12 .. 2^90, similar magnitudes after decimal normalisation
+            let (d0, d1) = *rng.pick(&[(6u32, 6u32), (6, 6), (6, 8), (8, 6), (6, 18), (18, 6)]);
+            let amp = *rng.pick(&[1u64, 2, 10, 85, 100, 100, 1000, 25_000, 1_000_000]);
+            let whole = (1u128 << rng.range(4, 36)) + rng.u128() % (1u128 << 4);
+            let a = whole * 10u128.pow(d0);
+            let b2 = match rng.below(3) {
+                0 => whole * 10u128.pow(d1),
+                1 => (whole / (1 + rng.below(4) as u128)).max(1) * 10u128.pow(d1),
+                _ => whole * (1 + rng.below(4) as u128) * 10u128.pow(d1),
+            };
+            return format!("init pair k0={k0} k1={k1} p={pf} s={sf} b={bf} n=4 a={a} bb={b2} curve=ss amp={amp} d0={d0} d1={d1}");
+        }
         format!("init pair k0={k0} k1={k1} p={pf} s={sf} b={bf} n=4 a={a} bb={b2}")
     }
     fn gen_ms(rng: &mut Rng) -> String {
